@@ -1,31 +1,46 @@
+from fractions import Fraction
+
 from rtamt.syntax.ast.visitor.stl.ast_visitor import StlAstVisitor
 from rtamt.pastifier.ltl.horizon import LtlHorizon
 
 from rtamt.exception.exception import RTAMTException
 
 
+def bounds_in_default_unit(ast, node):
+    # bounds of a timed operator expressed in the default unit of the specification
+    b_unit = node.begin_unit or node.end_unit or ast.unit
+    e_unit = node.end_unit or node.begin_unit or ast.unit
+    begin = node.begin * Fraction(ast.U[b_unit], ast.U[ast.unit])
+    end = node.end * Fraction(ast.U[e_unit], ast.U[ast.unit])
+    return begin, end
+
+
 class StlHorizon(LtlHorizon, StlAstVisitor):
 
-    def __init__(self):
+    def __init__(self, ast=None):
         LtlHorizon.__init__(self)
+        self.ast = ast
 
     def visit(self, node, *args, **kwargs):
         return StlAstVisitor.visit(self, node, *args, **kwargs)
 
     def visitTimedEventually(self, node, *args, **kwargs):
         op_horizon = self.visit(node.children[0], *args, **kwargs)
-        self.horizons[node] = op_horizon + node.end
-        return op_horizon + node.end
+        begin, end = bounds_in_default_unit(self.ast, node)
+        self.horizons[node] = op_horizon + end
+        return op_horizon + end
 
     def visitTimedAlways(self, node, *args, **kwargs):
         op_horizon = self.visit(node.children[0], *args, **kwargs)
-        self.horizons[node] = op_horizon + node.end
-        return op_horizon + node.end
+        begin, end = bounds_in_default_unit(self.ast, node)
+        self.horizons[node] = op_horizon + end
+        return op_horizon + end
 
     def visitTimedUntil(self, node, *args, **kwargs):
         op1_horizon = self.visit(node.children[0], *args, **kwargs)
         op2_horizon = self.visit(node.children[1], *args, **kwargs)
-        out = max(op1_horizon, op2_horizon) + node.end
+        begin, end = bounds_in_default_unit(self.ast, node)
+        out = max(op1_horizon, op2_horizon) + end
         self.horizons[node] = out
         return out
 
